@@ -36,6 +36,7 @@ def converged_problems(L, R):
 
 def exact_problems(tree, expect, label):
     out = []
+    expect = {k: tuple(v) for k, v in expect.items()}       # JSON round trips turn tuples into lists
     for k in sorted(set(tree) | set(expect)):
         a, b = tree.get(k), expect.get(k)
         if a != b:
